@@ -255,7 +255,10 @@ OPTS = {'profile': profile, 'lengths': [20, 40, 80, 120], 'ntargets': [1, 2, 2, 
 
 def plan(tier, seed):
     specs = [{'seed': seed * 1000 + 200 + i, 'budget': BUDGET[tier], 'mode': 'sched'} for i in range(11)]
-    specs += [{'seed': seed * 1000 + 250 + i, 'budget': BUDGET[tier], 'mode': 'e2e'} for i in range(5)]
+    # (the end-to-end shards really run the algorithms: a few histories per budget.  Their share of the floors is
+    # expressed in their own counters, not in the scheduler shards' ones)
+    specs += [{'seed': seed * 1000 + 250 + i, 'budget': BUDGET[tier], 'mode': 'e2e',
+               'min': {'e2e_histories': 2, 'e2e_values_compared': 20}} for i in range(5)]
     return specs
 
 
